@@ -309,3 +309,160 @@ Proof.
   - destruct (longest_prefix_pq s (x_plat a) (x_instance a)) as [p|]; [exact (XS_exec_new c a p s H)|].
     destruct H as [HSW [HW HXS]]. unfold ret. xs_go1.
 Qed.
+
+(* ---- events -------------------------------------------------------------------------------------------------------------- *)
+Definition ev_ok (e : event) : Prop :=
+  match e with EStartSync _ a _ => is_phantom (y_worker a) = false | _ => True end.
+
+Lemma XS_register_fold : forall k scs s,
+  sorted_strict scs = true -> XS [] s -> (exists p, In p (s_pqs s) /\ p_key p = k) ->
+  (forall sc, In sc scs -> scq_exists s (mkSK k sc) = false) ->
+  XS [] (fold_left (fun s sc => add_scq (mkSK k sc) false s) scs s).
+Proof.
+  intros k scs s Hs [A [B [C [N [T D]]]]] Hp Hn. split; [apply St_register_fold; assumption|].
+  assert (H : ON s /\ NPh s /\ XN s /\ OT s /\ X [] s) by auto. clear A B C N T D Hp Hn Hs.
+  revert s H. induction scs as [|sc scs IH]; intros s H; cbn [fold_left]; [exact H|]. apply IH.
+  destruct H as [B [C [N [T D]]]]. unfold add_scq. cbv zeta.
+  split; [eapply ON_frame; [ | |exact B]; reflexivity|].
+  split; [apply NPh_newscq; eapply NPh_frame; [|exact C]; reflexivity|].
+  split; [eapply XN_frame; [|exact N]; reflexivity|]. split; [eapply OT_frame; [ | |exact T]; reflexivity|].
+  apply X_newscq. eapply X_frame; [ | | | |exact D]; reflexivity.
+Qed.
+
+Ltac xs_leaf2 :=
+  first [ xs_leaf1
+        | lazymatch goal with
+          | |- XS _ (wait_execution_begin _ _ _) => apply XS_wait_execution_begin
+          end ].
+Ltac xs_go2 := inv_go xs_leaf2 t_XS.
+
+Lemma XS_terminate_fold : forall p l s waits,
+  XS [] s -> XS [] (fst (fold_left (fun (acc : state * list (nat * nat)) w =>
+        let '(s, waits) := acc in
+        if matches w p then
+          let s := mark_terminating w s in
+          match k_task (get_worker s w) with
+          | Some tk => (s, waits ++ [(tk, t_gen (get_task s tk))])
+          | None => (if k_wait (get_worker s w) then wake_up w s else s, waits)
+          end
+        else (s, waits)) l (s, waits))).
+Proof.
+  intros p l s waits H.
+  match goal with |- XS [] (fst (fold_left ?g ?l ?a)) => apply (fold_left_pres (fun acc => XS [] (fst acc)) g l) end;
+    [|exact H].
+  intros [s1 w1] w H1. cbn [fst] in *. unfold mark_terminating, wake_up. xs_go2.
+Qed.
+
+Lemma XS_step_core : forall e s, ev_ok e -> G s -> XS [] (step_core e s).
+Proof.
+  intros e s Hev H. destruct e; unfold step_core.
+  - apply XS_exec_start. apply G_enter. exact H.
+  - apply (G_enter t) in H. set (s1 := enter t s) in *. clearbody s1. destruct H as [_ [_ HXS]]. unfold ret. xs_go2.
+  - apply G_XS. apply G_sync_start; [exact Hev|apply G_enter; exact H].
+  - apply (G_enter t) in H. set (s1 := enter t s) in *. clearbody s1. destruct H as [_ [_ HXS]]. unfold kill_lookup, ret. xs_go2.
+  - apply (G_enter t) in H. set (s1 := enter t s) in *. clearbody s1. cbv zeta.
+    destruct (negb (scq_exists s1 k)); [apply G_XS; apply G_ret; exact H|].
+    destruct (negb _); apply G_XS; apply G_ret; [exact H|apply G_cancel_all_queued; exact H].
+  - apply (G_enter t) in H. set (s1 := enter t s) in *. clearbody s1. destruct H as [_ [_ HXS]]. unfold ret, wake_up. xs_go2.
+  - apply (G_enter t) in H. set (s1 := enter t s) in *. clearbody s1. destruct H as [_ [_ HXS]]. unfold ret. xs_go2.
+  - cbv zeta. match goal with |- XS [] (match ?x with _ => _ end) => rewrite (surjective_pairing x) end.
+    cbv beta iota. apply (G_enter t) in H.
+    match goal with |- XS [] (set_call _ _ (fst ?e)) => assert (H2 : XS [] (fst e)) by (apply XS_terminate_fold; exact (G_XS _ H)); set (s2 := fst e) in * end.
+    clearbody s2. xs_go2.
+  - (* Register *)
+    destruct (_ || _) eqn:Ev; [destruct H as [_ [_ HXS]]; unfold ret; xs_go2|]. cbv zeta.
+    apply (G_enter t) in H. set (s1 := enter t s) in *. clearbody s1.
+    destruct (get_pq s1 k) as [p|] eqn:Ep; [destruct H as [_ [_ HXS]]; unfold ret; xs_go2|].
+    unfold ret.
+    match goal with |- XS [] (set_call _ _ (emit _ ?S2)) => assert (H2 : XS [] S2); [|set (s2 := S2) in *; clearbody s2; xs_go2] end.
+    apply orb_false_iff in Ev. destruct Ev as [Ev _]. apply orb_false_iff in Ev. destruct Ev as [_ Ev].
+    apply negb_false_iff in Ev.
+    apply XS_register_fold; [exact Ev|apply XS_add_pq; exact (G_XS _ H)| |].
+    + unfold add_pq. cbn. eexists. split; [apply in_or_app; right; left; reflexivity|reflexivity].
+    + intros sc Hsc. rewrite (scq_exists_frame s1) by reflexivity.
+      destruct (scq_exists s1 (mkSK k sc)) eqn:Ee; [|reflexivity]. exfalso.
+      destruct H as [[[_ [_ [_ [_ H4]]]] _] _]. destruct (H4 _ Ee) as [p [Hp [Hk _]]]. cbn in Hk.
+      unfold get_pq in Ep. apply (find_none _ _ Ep) in Hp. rewrite (proj2 (pkey_eqb_eq _ _) Hk) in Hp. discriminate.
+  - apply (G_enter t) in H. apply G_XS. apply G_ret. exact H.
+  - (* EEnter *)
+    cbv zeta. destruct (negb (at_gate s (get_call s c))) eqn:Eg; [exact (G_XS _ H)|]. apply negb_false_iff in Eg.
+    pose proof (G_enter t s H) as He.
+    rewrite get_call_aget in *. destruct (aget Nat.eqb c (s_calls s)) as [p|] eqn:Ep; [|exact (G_XS _ He)].
+    assert (Hpe : aget Nat.eqb c (s_calls (enter t s)) = Some p) by (rewrite calls_enter; exact Ep).
+    destruct p; try exact (G_XS _ He);
+      try (set (s1 := enter t s) in *; clearbody s1; destruct He as [_ [_ HXS]]; unfold stream_iter, stream_return, kill_lookup, ret; xs_go2; fail).
+    + (* PSyncDrained *)
+      apply G_XS. apply G_sync_loop. split; [|exact (proj2 He)].
+      eapply Ctx_of_named; [exact (G_SW _ He)|exact Hpe|reflexivity|].
+      destruct (G_SW _ He) as [_ [_ [_ [_ [_ [B3 _]]]]]]. eapply B3; [exact Hpe|reflexivity].
+    + (* PSyncQueued *)
+      cbn [at_gate] in Eg. apply negb_true_iff in Eg.
+      assert (Hc : GC c w (enter t s)).
+      { split; [|exact (proj2 He)]. eapply Ctx_of_named; [exact (G_SW _ He)|exact Hpe|reflexivity|]. apply SWK_enter; [exact (G_SW _ H)|exact Eg]. }
+      apply G_XS. destruct (k_task (get_worker (enter t s) w)); [apply G_sync_return_exec|apply G_sync_loop]; exact Hc.
+    + (* PKillRecheck *)
+      set (s1 := enter t s) in *. clearbody s1.
+      match goal with |- XS [] (if op_alive s1 ?n then _ else _) => destruct (op_alive s1 n) eqn:Ea end; [|destruct He as [_ [_ HXS]]; xs_go2].
+      apply G_XS. apply G_ret. apply G_complete_task; [|exact He]. exact (W_pick_op _ _ (G_W _ He) Ea).
+  - (* ETimer *)
+    cbv zeta. destruct (at_gate s (get_call s c)) eqn:Eg; [exact (G_XS _ H)|].
+    pose proof (G_enter t s H) as He.
+    rewrite get_call_aget in *. destruct (aget Nat.eqb c (s_calls s)) as [p|] eqn:Ep; [|exact (G_XS _ H)].
+    assert (Hpe : aget Nat.eqb c (s_calls (enter t s)) = Some p) by (rewrite calls_enter; exact Ep).
+    destruct p; try exact (G_XS _ H);
+      try (set (s1 := enter t s) in *; clearbody s1; destruct He as [_ [_ HXS]]; unfold stream_iter; xs_go2; fail).
+  - (* ECancel *)
+    cbv zeta. destruct (at_gate s (get_call s c)) eqn:Eg; [exact (G_XS _ H)|].
+    destruct H as [_ [_ HXS]]. destruct (get_call s c); unfold ret; xs_go2.
+Qed.
+
+Lemma G_step_core : forall e s, ev_ok e -> G s -> G (step_core e s).
+Proof.
+  intros e s Hev H. split; [apply SW_step_core; exact (G_SW _ H)|].
+  split; [apply (WL_W []); apply WL_step_core; apply WL_of_W; exact (G_W _ H)|apply XS_step_core; assumption].
+Qed.
+
+Lemma G_eq : forall s s',
+  s_tasks s' = s_tasks s -> s_ntasks s' = s_ntasks s -> s_ops s' = s_ops s -> s_nops s' = s_nops s -> s_inflight s' = s_inflight s ->
+  s_scqs s' = s_scqs s -> s_invs s' = s_invs s -> s_pqs s' = s_pqs s -> s_calls s' = s_calls s -> G s -> G s'.
+Proof.
+  intros s s' E1 E2 E3 E4 E5 E6 E7 E8 E9 [HSW [HW [A [B [C [N [T D]]]]]]].
+  split; [eapply SW_eq; eassumption|]. split; [apply (WL_W []); eapply WL_frame; [ | | | | | | |apply WL_of_W; exact HW]; assumption|].
+  split; [eapply St_frame; eassumption|]. split; [eapply ON_frame; eassumption|]. split; [eapply NPh_frame; eassumption|].
+  split; [eapply XN_frame; eassumption|]. split; [eapply OT_frame; eassumption|eapply X_frame; eassumption].
+Qed.
+
+Lemma G_step : forall s eh, ev_ok (fst eh) -> G s -> G (fst (step s eh)).
+Proof.
+  intros s eh Hev H. unfold step. cbn [fst].
+  set (s0 := s <| s_hints := snd eh |> <| s_out := [] |>).
+  assert (H0 : G s0) by (eapply G_eq; [..|exact H]; reflexivity).
+  assert (H1 : G (auto_returns (step_core (fst eh) s0))).
+  { apply (fr_auto_returns G); [intros; apply G_ret; assumption|]. apply G_step_core; assumption. }
+  eapply G_eq; [..|exact H1]; reflexivity.
+Qed.
+
+Lemma XS_init : forall cfg t0, XS [] (init cfg t0).
+Proof.
+  intros cfg t0. split; [apply St_init|]. unfold init.
+  split; [split; [constructor|intros o []]|]. split; [intros w Hw; discriminate Hw|]. split; [intros t; constructor|].
+  split; [intros o x []|].
+  constructor; unfold get_task, get_worker, worker_exists, get_scq, get_inv, op_alive, queued, idle_live, tsk, get_op; cbn;
+    intros; try discriminate; try contradiction; try constructor; auto.
+Qed.
+
+Lemma G_init : forall cfg t0, G (init cfg t0).
+Proof. intros. split; [apply SW_init|]. split; [apply W_init|apply XS_init]. Qed.
+
+Definition evs_ok (evs : list (event * list (nat * wref))) : Prop := forall eh, In eh evs -> ev_ok (fst eh).
+
+Lemma G_run_from : forall evs s, evs_ok evs -> G s -> G (fst (run s evs)).
+Proof.
+  induction evs as [|eh evs IH]; intros s Hok H; [exact H|]. cbn [run].
+  pose proof (G_step s eh (Hok eh (or_introl eq_refl)) H) as H1.
+  destruct (step s eh) as [s1 o]. cbn [fst] in H1.
+  specialize (IH s1 (fun e He => Hok e (or_intror He)) H1). destruct (run s1 evs) as [s2 os]. exact IH.
+Qed.
+
+Lemma G_run : forall cfg t0 evs, evs_ok evs -> G (fst (run (init cfg t0) evs)).
+Proof. intros. apply G_run_from; [assumption|apply G_init]. Qed.
